@@ -34,6 +34,9 @@ pub struct Case {
 	/// how the TCP listener is named on the command line: "" = 127.0.0.1 | "[::1]" | "localhost"
 	#[serde(default)]
 	pub tcp_host: String,
+	/// layout of a value file (--domain-file / --acme-ext-file): 0 "V\n" | 1 "V" | 2 " V \n" | 3 "\nV\n" | 4 "\n\n\tV\n\n" | 5 "V\r\n"
+	#[serde(default)]
+	pub file_shape: u8,
 }
 
 pub fn ext_text(digest: &[u8], upper: bool) -> String {
@@ -85,9 +88,10 @@ pub fn strategy() -> impl Strategy<Value = Case> {
 		proptest::sample::select(vec!["flag", "file", "stdin"]),
 		proptest::collection::vec(offer(), 2..5),
 		any::<bool>(),
-		(any::<bool>(), prop_oneof![5 => Just(0u64), 1 => Just(50u64), 1 => Just(250u64), 1 => Just(1100u64)], prop_oneof![3 => Just(""), 2 => Just("[::1]"), 1 => Just("localhost")]),
+		(any::<bool>(), prop_oneof![5 => Just(0u64), 1 => Just(50u64), 1 => Just(250u64), 1 => Just(1100u64)], prop_oneof![3 => Just(""), 2 => Just("[::1]"), 1 => Just("localhost")], 0u8..6),
 	)
-		.prop_map(|((domain_cfg, domain_expected), digest, key_type, cert_digest, unix, dv, ev, offers, upper_hex, (client_max12, client_delay_ms, tcp_host))| Case {
+		.prop_map(|((domain_cfg, domain_expected), digest, key_type, cert_digest, unix, dv, ev, offers, upper_hex, (client_max12, client_delay_ms, tcp_host, file_shape))| Case {
+			file_shape,
 			domain_cfg,
 			domain_expected,
 			digest,
@@ -119,6 +123,8 @@ pub fn free_port() -> u16 {
 }
 
 thread_local! {
+	/// layout of value files written by this thread (see Case::file_shape)
+	pub static FILE_SHAPE: std::cell::Cell<u8> = const { std::cell::Cell::new(0) };
 	/// host part of the --listen value of TCP listeners started by this thread ("" = 127.0.0.1)
 	pub static TCP_HOST: std::cell::RefCell<String> = const { std::cell::RefCell::new(String::new()) };
 }
@@ -175,6 +181,18 @@ pub fn start_tacd_limited(tacd: &Path, dir: &Path, case_domain: &str, ext: &str,
 	Err(format!("harness could not find a free port: {last}"))
 }
 
+/// a value as an administrator's editor or script may have left it in a file: the value is what remains after trimming
+fn shaped(v: &str) -> String {
+	match FILE_SHAPE.with(|s| s.get()) {
+		1 => v.to_string(),
+		2 => format!(" {v} \n"),
+		3 => format!("\n{v}\n"),
+		4 => format!("\n\n\t{v}\n\n"),
+		5 => format!("{v}\r\n"),
+		_ => format!("{v}\n"),
+	}
+}
+
 #[allow(clippy::too_many_arguments)]
 fn start_tacd_once(tacd: &Path, dir: &Path, case_domain: &str, ext: &str, domain_via: &str, ext_via: &str, key_type: &Option<String>, cert_digest: &Option<String>, unix: bool, nofile: Option<u64>) -> Result<Tacd, String> {
 	let mut port = 0u16;
@@ -196,7 +214,7 @@ fn start_tacd_once(tacd: &Path, dir: &Path, case_domain: &str, ext: &str, domain
 		}
 		"file" => {
 			let p = dir.join("domain.txt");
-			std::fs::write(&p, format!("{case_domain}\n")).map_err(|e| e.to_string())?;
+			std::fs::write(&p, shaped(case_domain)).map_err(|e| e.to_string())?;
 			args.push("--domain-file".into());
 			args.push(p.display().to_string());
 		}
@@ -209,7 +227,7 @@ fn start_tacd_once(tacd: &Path, dir: &Path, case_domain: &str, ext: &str, domain
 		}
 		"file" => {
 			let p = dir.join("ext.txt");
-			std::fs::write(&p, format!("{ext}\n")).map_err(|e| e.to_string())?;
+			std::fs::write(&p, shaped(ext)).map_err(|e| e.to_string())?;
 			args.push("--acme-ext-file".into());
 			args.push(p.display().to_string());
 		}
@@ -252,8 +270,10 @@ pub fn exec(case: &Case) -> Outcome {
 	let dir = scratch_dir("c16");
 	let ext = ext_text(&case.digest, case.upper_hex);
 	TCP_HOST.with(|h| *h.borrow_mut() = case.tcp_host.clone());
+	FILE_SHAPE.with(|s| s.set(case.file_shape));
 	let started = start_tacd(&tacd, &dir, &case.domain_cfg, &ext, &case.domain_via, &case.ext_via, &case.key_type, &case.cert_digest, case.unix);
 	TCP_HOST.with(|h| h.borrow_mut().clear());
+	FILE_SHAPE.with(|s| s.set(0));
 	let mut t = match started {
 		Ok(t) => t,
 		Err(e) => {
@@ -319,7 +339,7 @@ pub fn exec(case: &Case) -> Outcome {
 }
 
 pub fn run(ctx: &Ctx, rep: &mut Report) {
-	rep.rule = "case = tacd (release build, as shipped) started with a random domain (ASCII / IDN / mixed case / reverse-DNS name / names of 65..200 octets with labels up to 63), a random 32-byte digest rendered as the daemon's acmeIdentifier text (upper or lower hex), key type (7 or default) x digest (3 or default), TCP listener given as 127.0.0.1:port, [::1]:port or localhost:port, or unix-socket listener; client offering every TLS version or TLS 1.2 at most, sending its flights at once or 50 / 250 / 1100 ms late; domain and extension each passed by flag, file or standard input; 2..4 client ALPN lists tried in turn (only acme-tls/1; acme-tls/1 among others at any position; only foreign protocols incl. near-misses). Oracle (OpenSSL client of the harness + own DER walker): offering acme-tls/1 => handshake succeeds, acme-tls/1 negotiated, peer certificate has exactly one SAN = A-label dNSName (own punycode), critical acmeIdentifier = OCTET STRING of the digest, self-signed and verifying under its own key, currently valid, requested key type and digest; offering only other protocols => handshake fails. Non-trivial = one server answered at least one acme-tls/1 offer correctly AND refused at least one foreign offer.".into();
+	rep.rule = "case = tacd (release build, as shipped) started with a random domain (ASCII / IDN / mixed case / reverse-DNS name / names of 65..200 octets with labels up to 63), a random 32-byte digest rendered as the daemon's acmeIdentifier text (upper or lower hex), key type (7 or default) x digest (3 or default), TCP listener given as 127.0.0.1:port, [::1]:port or localhost:port, or unix-socket listener; client offering every TLS version or TLS 1.2 at most, sending its flights at once or 50 / 250 / 1100 ms late; domain and extension each passed by flag, file (six layouts: with or without final line end, surrounded by blanks, after blank lines, CRLF) or standard input; 2..4 client ALPN lists tried in turn (only acme-tls/1; acme-tls/1 among others at any position; only foreign protocols incl. near-misses). Oracle (OpenSSL client of the harness + own DER walker): offering acme-tls/1 => handshake succeeds, acme-tls/1 negotiated, peer certificate has exactly one SAN = A-label dNSName (own punycode), critical acmeIdentifier = OCTET STRING of the digest, self-signed and verifying under its own key, currently valid, requested key type and digest; offering only other protocols => handshake fails. Non-trivial = one server answered at least one acme-tls/1 offer correctly AND refused at least one foreign offer.".into();
 	run_replays::<Case>(ctx, rep, "bb", &exec);
 	if ctx.replay.is_some() {
 		return;
